@@ -1,7 +1,7 @@
 (* UnambProofs.v — soundness of the finite unambiguity certificate of Unamb.v:
    if [inv_check_aut a S = true] then no concrete run of the matcher over any
    token sequence can raise the ambiguity error. *)
-From Verif Require Import Base Regex Nfa Dfa Token Unamb.
+From Verif Require Import Base Regex Nfa Dfa Token TokEngine Unamb.
 Open Scope Z_scope.
 
 (* ====================================================================== *)
@@ -624,3 +624,181 @@ Proof.
   destruct (consume_step a S pt c x Hinv Hrel Hmem) as [H|(pt1 & c1 & H & _)];
     rewrite H; eauto.
 Qed.
+
+(* ====================================================================== *)
+(* 9. the start configuration                                              *)
+(* ====================================================================== *)
+
+Theorem start_related : forall a i,
+  related a (new_pat a i) (start_config a (bal_preds (a_heap a))).
+Proof.
+  intros a i. unfold related, start_config, new_pat. cbn [fst snd p_state p_depths].
+  split; [reflexivity|]. split; [apply map_length|]. split; [|reflexivity].
+  intros j p Hp. cbn [depth_of]. apply nth_error_nth.
+  apply (map_nth_error (fun _ : tpred => DZero)) in Hp. exact Hp.
+Qed.
+
+Lemma inv_check_start : forall a S, inv_check_aut a S = true ->
+  config_mem (start_config a (bal_preds (a_heap a))) S = true.
+Proof.
+  intros a S H. unfold inv_check_aut in H. apply andb_true_iff in H. tauto.
+Qed.
+
+(* a pattern is covered when it is related to a configuration of the invariant *)
+Definition covered (a : automaton tpred) (S : list config) (pt : pat tpred) : Prop :=
+  exists c, related a pt c /\ config_mem c S = true.
+
+Lemma new_pat_covered : forall a S i, inv_check_aut a S = true -> covered a S (new_pat a i).
+Proof.
+  intros a S i H. exists (start_config a (bal_preds (a_heap a))).
+  split; [apply start_related | apply inv_check_start; assumption].
+Qed.
+
+Lemma consume_covered : forall a S pt x, inv_check_aut a S = true -> covered a S pt ->
+  consume_tk a pt x = OK None \/
+  exists pt', consume_tk a pt x = OK (Some pt') /\ covered a S pt'.
+Proof.
+  intros a S pt x Hinv (c & Hr & Hm).
+  destruct (consume_step a S pt c x Hinv Hr Hm) as [H|(pt1 & c1 & H & Hr1 & Hm1)]; auto.
+  right. exists pt1. split; auto. exists c1. auto.
+Qed.
+
+(* ====================================================================== *)
+(* 10. corollaries: match, starts_with, find_all                           *)
+(* ====================================================================== *)
+
+Definition run_all_tk := @run_all tpred token tpred_eqb taccept_st.
+Definition run_prefix_tk := @run_prefix tpred token tpred_eqb taccept_st.
+Definition step_active_tk := @step_active tpred token tpred_eqb taccept_st.
+Definition scan_loop_tk := @scan_loop tpred token tpred_eqb taccept_st.
+
+Theorem run_all_covered : forall a S w pt, inv_check_aut a S = true -> covered a S pt ->
+  exists r, run_all_tk a pt w = OK r.
+Proof.
+  intros a S. induction w as [|x w IH]; intros pt Hinv Hc; cbn [run_all_tk run_all].
+  - eauto.
+  - fold consume_tk.
+    destruct (consume_covered a S pt x Hinv Hc) as [H|(pt' & H & Hc')]; rewrite H.
+    + eauto.
+    + apply IH; assumption.
+Qed.
+
+Theorem run_prefix_covered : forall a S w pt, inv_check_aut a S = true -> covered a S pt ->
+  exists r, run_prefix_tk a pt w = OK r.
+Proof.
+  intros a S. induction w as [|x w IH]; intros pt Hinv Hc; cbn [run_prefix_tk run_prefix].
+  - eauto.
+  - fold consume_tk.
+    destruct (consume_covered a S pt x Hinv Hc) as [H|(pt' & H & Hc')]; rewrite H.
+    + eauto.
+    + destruct (is_accepting a pt'); [eauto|]. apply IH; assumption.
+Qed.
+
+Theorem run_all_no_amb : forall a S w i, inv_check_aut a S = true ->
+  run_all tpred_eqb taccept_st a (new_pat a i) w <> Err ValueErrorAmbiguous.
+Proof.
+  intros a S w i Hinv.
+  destruct (run_all_covered a S w (new_pat a i) Hinv (new_pat_covered a S i Hinv)) as [r H].
+  unfold run_all_tk in H. rewrite H. discriminate.
+Qed.
+
+Theorem run_prefix_no_amb : forall a S w i, inv_check_aut a S = true ->
+  run_prefix tpred_eqb taccept_st a (new_pat a i) w <> Err ValueErrorAmbiguous.
+Proof.
+  intros a S w i Hinv.
+  destruct (run_prefix_covered a S w (new_pat a i) Hinv (new_pat_covered a S i Hinv)) as [r H].
+  unfold run_prefix_tk in H. rewrite H. discriminate.
+Qed.
+
+Theorem starts_with_dfa_no_amb : forall a S w, inv_check_aut a S = true ->
+  starts_with_dfa tpred_eqb taccept_st a w <> Err ValueErrorAmbiguous.
+Proof. intros. unfold starts_with_dfa. eapply run_prefix_no_amb; eassumption. Qed.
+
+Lemma step_active_covered : forall a S idx x active, inv_check_aut a S = true ->
+  Forall (covered a S) active ->
+  exists act' cs, step_active_tk a idx x active = OK (act', cs) /\ Forall (covered a S) act'.
+Proof.
+  intros a S idx x. induction active as [|pt rest IH]; intros Hinv Hall;
+    cbn [step_active_tk step_active].
+  - exists [], []. split; [reflexivity | constructor].
+  - fold consume_tk. fold step_active_tk.
+    inversion Hall as [|? ? Hc Hrest]; subst.
+    destruct (IH Hinv Hrest) as (act' & cs & E & Hact). rewrite E.
+    destruct (consume_covered a S pt x Hinv Hc) as [H|(pt' & H & Hc')]; rewrite H.
+    + destruct (is_accepting a pt); eauto.
+    + exists (pt' :: act'), cs. split; [reflexivity|]. constructor; assumption.
+Qed.
+
+Theorem scan_loop_covered : forall a S w idx active cands, inv_check_aut a S = true ->
+  Forall (covered a S) active ->
+  exists r, scan_loop_tk a idx w active cands = OK r.
+Proof.
+  intros a S. induction w as [|x w IH]; intros idx active cands Hinv Hall;
+    cbn [scan_loop_tk scan_loop].
+  - eauto.
+  - fold step_active_tk. fold scan_loop_tk.
+    assert (Hall' : Forall (covered a S) (active ++ [new_pat a idx])).
+    { apply Forall_app. split; [assumption|]. constructor; [|constructor].
+      apply new_pat_covered. assumption. }
+    destruct (step_active_covered a S idx x _ Hinv Hall') as (act' & cs & E & Hact).
+    rewrite E. apply IH; assumption.
+Qed.
+
+Theorem all_candidates_ok : forall a S w, inv_check_aut a S = true ->
+  exists cs, all_candidates tpred_eqb taccept_st a w = OK cs.
+Proof.
+  intros a S w Hinv. unfold all_candidates.
+  apply (scan_loop_covered a S w O [] [] Hinv). constructor.
+Qed.
+
+Lemma select_leftmost_no_amb : forall (f : cand -> res bool),
+  (forall c, f c <> Err ValueErrorAmbiguous) ->
+  forall cs last_end, select_leftmost f last_end cs <> Err ValueErrorAmbiguous.
+Proof.
+  intros f Hf. induction cs as [|c rest IH]; intros last_end; cbn [select_leftmost].
+  - discriminate.
+  - destruct (f c) as [[|]|k] eqn:E.
+    + destruct (Nat.leb last_end (fst c)); [|apply IH].
+      destruct (select_leftmost f (snd c) rest) as [r|k] eqn:E2; [discriminate|].
+      intro K. inversion K; subst. apply (IH (snd c)). assumption.
+    + apply IH.
+    + intro K. inversion K; subst. apply (Hf c). assumption.
+Qed.
+
+Theorem find_all_no_amb : forall a S w, inv_check_aut a S = true ->
+  forall f, (forall c, f c <> Err ValueErrorAmbiguous) ->
+  find_all_dfa tpred_eqb taccept_st a w f <> Err ValueErrorAmbiguous.
+Proof.
+  intros a S w Hinv f Hf. unfold find_all_dfa.
+  destruct (all_candidates_ok a S w Hinv) as [cs E]. rewrite E.
+  apply select_leftmost_no_amb. assumption.
+Qed.
+
+(* end-to-end: a pattern that passes unambiguous_check never raises the
+   ambiguity error in match / starts_with / find_all *)
+Theorem unambiguous_check_sound : forall e w, unambiguous_check e = true ->
+  tk_match e w <> Err ValueErrorAmbiguous /\
+  tk_starts_with e w <> Err ValueErrorAmbiguous /\
+  (forall f, (forall c, f c <> Err ValueErrorAmbiguous) ->
+     tk_find_all e w f <> Err ValueErrorAmbiguous).
+Proof.
+  intros e w H. unfold unambiguous_check in H.
+  unfold tk_match, match_, tk_starts_with, starts_with, tk_find_all, find_all.
+  destruct (to_dfa e) as [a|k] eqn:E; [|discriminate].
+  split; [|split].
+  - pose proof (run_all_no_amb a _ w O H) as K.
+    destruct (run_all tpred_eqb taccept_st a (new_pat a 0) w) as [[pt|]|k]; try discriminate.
+    intro K'. inversion K'; subst. apply K. reflexivity.
+  - eapply starts_with_dfa_no_amb. eassumption.
+  - intros f Hf. eapply find_all_no_amb; eassumption.
+Qed.
+
+Print Assumptions tpred_eqb_spec.
+Print Assumptions rep_accept.
+Print Assumptions consume_sound.
+Print Assumptions consume_total.
+Print Assumptions start_related.
+Print Assumptions run_all_no_amb.
+Print Assumptions run_prefix_no_amb.
+Print Assumptions find_all_no_amb.
+Print Assumptions unambiguous_check_sound.
